@@ -37,6 +37,19 @@ GOENV = {
 }
 
 
+def _ram_mb():
+    try:
+        for line in open("/proc/meminfo"):
+            if line.startswith("MemTotal:"):
+                return int(line.split()[1]) // 1024
+    except OSError:
+        pass
+    return 16384
+
+
+RAM_MB = _ram_mb()
+
+
 class Infra(Exception):
     """Infrastructure failure: exit 2, never a verdict."""
 
@@ -223,7 +236,7 @@ class Ctx:
         violation found on the specification alone is a specification bug, i.e. an
         infrastructure failure, never a verdict about pat-go."""
         self.log("TLC model checking %s %s" % (module, cfg or ""))
-        r = self.tlc(module, cfg, workers, timeout)
+        r = self.tlc(module, cfg, workers, timeout, heap="8g")
         out = r["out"]
         m = re.search(r"(\d+) states generated, (\d+) distinct states found", out)
         if expect_violation:
@@ -252,7 +265,7 @@ class Ctx:
             for k, v in overrides.items():
                 txt = re.sub(r"(?m)^(\s*(?:CONSTANT\s+)?%s\s*=\s*).*$" % re.escape(k), lambda m: m.group(1) + str(v), txt)
             open(cfgp, "w").write(txt)
-        r = self.tlc(module, cfg, workers=workers, timeout=timeout, cwd=d)
+        r = self.tlc(module, cfg, workers=workers, timeout=timeout, cwd=d, heap="4g")
         out = r["out"]
         m = re.search(r"(\d+) states generated, (\d+) distinct states found", out)
         if "Model checking completed. No error has been found." not in out or not m:
@@ -288,7 +301,7 @@ class Ctx:
             d = self._specdir("tv-%s-%d" % (module, i))
             shutil.copy(f, os.path.join(d, "trace.ndjson"))
             n = sum(1 for _ in open(f))
-            r = self.tlc(module, cfg, workers=1, timeout=timeout, cwd=d)
+            r = self.tlc(module, cfg, workers=1, timeout=timeout, cwd=d, heap="%dm" % heap_mb)
             out = r["out"]
             done = re.search(r'"DONE (\d+)"', out)
             if not done or int(done.group(1)) != n:
@@ -297,8 +310,13 @@ class Ctx:
             shutil.rmtree(d, True)
             return n, rej, r["cmd"]
 
+        # JVM heaps are bounded explicitly (the JVM default is a quarter of the RAM PER PROCESS, and one TLC process runs
+        # per shard): about 40 KB per trace event, and no more processes at once than fit into 60 % of the memory
+        biggest = max(sum(1 for _ in open(f)) for f in files)
+        heap_mb = int(min(12288, 1024 + biggest * 0.04))
+        par = max(1, min(NCPU, len(files), int(0.6 * RAM_MB / heap_mb)))
         total, rejects = 0, []
-        with concurrent.futures.ThreadPoolExecutor(max_workers=min(NCPU, len(files))) as ex:
+        with concurrent.futures.ThreadPoolExecutor(max_workers=par) as ex:
             for n, rej, cmd in ex.map(one, list(enumerate(files))):
                 total += n
                 rejects += rej
